@@ -57,6 +57,7 @@ var (
 	errInvalidExtLength     = errors.New("invalid extension field length")
 	errUnexpectedNonceLen   = errors.New("unexpected nonce length")
 	errShortUniqueID        = errors.New("UniqueIdentifier.ID < 32 bytes")
+	errRequestTooLarge      = errors.New("request too large to be answered")
 	errUnexpectedExtHdrType = errors.New("unexpected extension header type")
 	errUnexpectedResponseID = errors.New("unexpected response ID")
 )
@@ -322,6 +323,14 @@ func NewResponsePacket(cookies [][]byte, key []byte, uniqueid []byte) (pkt Packe
 // ProcessRequest handles a request from a client.
 // It checks the authentication.
 func ProcessRequest(b []byte, key []byte, pkt *Packet) error {
+	// The response echoes the unique identifier: refuse what EncodePacket cannot encode.
+	if len(pkt.UniqueID.ID) < 32 {
+		return errShortUniqueID
+	}
+	if len(pkt.Cookies) != 0 && maxNumCookies(len(pkt.UniqueID.ID), len(pkt.Cookies[0].Cookie)) < 1 {
+		return errRequestTooLarge
+	}
+
 	err := pkt.authenticate(b, key)
 	if err != nil {
 		return err
